@@ -48,6 +48,8 @@ pub struct Features {
     pub orphans: bool,
     /// user-defined immediate words (engines opt in; C10 lists their build-time effects as a known finding)
     pub immediates: bool,
+    /// relative weight of tag operations (2 by default)
+    pub tag_weight: u32,
 }
 
 impl Features {
@@ -78,6 +80,7 @@ impl Features {
             wide: true,
             orphans: true,
             immediates: false,
+            tag_weight: 2,
         }
     }
     /// swarm: switch a random subset of feature families off
@@ -434,6 +437,15 @@ impl<'a> Gen<'a> {
         if self.f.errors > 0 && self.rng.below(1000) < self.f.errors {
             return self.failing();
         }
+        if self.in_meta && self.avail() <= 1 && self.rng.chance(1, 25) {
+            // reach below what the block itself pushed: the items under a meta block are hidden from
+            // it, so this fails (and rejects the source) whatever lies underneath
+            let t = *self.rng.pick(&["drop", "swap", "rot", "over", "dup", "1 2 collect", "2 collect", "unbox", "depth 1 + collect"]);
+            for w in t.split(' ') {
+                self.emit(w);
+            }
+            return;
+        }
         let nested = self.depth >= 3;
         let top_level = self.depth == 0 && !self.in_def && !self.in_meta;
         let pure = self.in_meta;
@@ -451,7 +463,7 @@ impl<'a> Gen<'a> {
             if self.f.vars && !pure { 5 } else { 0 },                     // 10 var load/store
             if self.f.vecs { 5 } else { 0 },                              // 11 vector ops
             if self.f.maps { 3 } else { 0 },                              // 12 map ops
-            if self.f.tags { 2 } else { 0 },                              // 13 tag ops
+            if self.f.tags { self.f.tag_weight } else { 0 },              // 13 tag ops
             if self.f.meta && !pure && !nested { 3 } else { 0 },          // 14 meta block
             if self.f.input && !pure { 5 } else { 0 },                    // 15 input reads
             if self.f.bits { 4 } else { 0 },                              // 16 bit-string ops
@@ -879,7 +891,13 @@ impl<'a> Gen<'a> {
                 self.push(Ty::Int);
             }
             6 => {
-                self.emits(&["1", "2", "3", "3", "collect"]);
+                if self.avail() >= 1 && self.rng.chance(1, 3) {
+                    // takes the item below as well
+                    self.emits(&["1", "2", "3", "4", "collect"]);
+                    self.pop();
+                } else {
+                    self.emits(&["1", "2", "3", "3", "collect"]);
+                }
                 self.push(Ty::Vec);
             }
             7 => {
@@ -951,7 +969,20 @@ impl<'a> Gen<'a> {
         if self.avail() == 0 {
             self.push_lit(Ty::Int);
         }
-        match self.rng.below(5) {
+        match self.rng.below(8) {
+            5 | 6 => {
+                // the same key again, with a tag value that is equal to the earlier one as a number
+                // but decorated differently (Cell's == ignores tags and formatting flags)
+                let deco = *self.rng.pick(&["7", "7 ^hex", "7 ^bin", "7 true fmt/upcase", "7 { 1 \"a\" } with-tags", "7.0", "7 \"u\" \"t\" insert-tag"]);
+                for w in deco.split(' ') {
+                    self.emit(w);
+                }
+                self.emits(&["\"t\"", "insert-tag"]);
+            }
+            7 => {
+                self.emits(&["dup", "\"t\"", "get-tag", "tags"]);
+                self.push(Ty::Any);
+            }
             0 => {
                 let v = self.int_lit();
                 self.emit(&v);
